@@ -250,8 +250,10 @@ def run_shard(tier, idx, nshards, rec, known):
                 try:
                     fired, nb, mo = check(seq, p)
                     if p['mbe'] in (1, 2) and p['batch_size'] == 2 and n >= 2 and not p['sort']:
-                        check_two(seq, p, [0, 1] * n)
-                        check_two(seq, p, [0, 0, 1] * n)
+                        for word in ([0, 1] * n, [0, 0, 1] * n):
+                            case = {'lengths': list(seq), 'params': p, 'word': word}
+                            check_two(seq, p, word)
+                        case = {'lengths': list(seq), 'params': p}
                 except Violation as v:
                     if known.match(v.sig):
                         rec.known_hits[v.sig] += 1
